@@ -39,7 +39,8 @@ theorem replayG_reset_append (m : Mem) (l : List Mutation) (w : Mutation) :
   induction l generalizing m with
   | nil =>
     rw [List.nil_append, replayG_reset_cons]
-    cases handle m w <;> simp [replayG]
+    simp only [replayG]
+    cases handle m w <;> rfl
   | cons x xs ih =>
     rw [List.cons_append, replayG_reset_cons, replayG_reset_cons]
     cases h : handle m x with
